@@ -14,6 +14,8 @@
 //	cfgfail    registers, fails Configure
 //	cfghang    registers, never answers Configure (request timeout), lingers until killed
 //	syncfail   registers, is configured, fails Synchronize
+//	synchang   registers, is configured, never answers Synchronize (request timeout)
+//	syncclose  registers, is configured, closes its connection instead of answering Synchronize
 //	die<k>     like ok, but exits inside the handler of its k-th lifecycle event (no reply)
 //	dieafter<k> like ok, but exits shortly after having answered its k-th lifecycle event
 //	lingerafter<k> like ok, but shortly after having answered its k-th lifecycle event it
@@ -299,8 +301,14 @@ func (p *plugin) Synchronize(_ context.Context, pods []*api.PodSandbox, ctrs []*
 	logMu.Lock()
 	appendLine(Line{Ev: "Synchronize", Tag: fmt.Sprintf("%d/%d", len(pods), len(ctrs))})
 	logMu.Unlock()
-	if p.word == "syncfail" {
+	switch p.word {
+	case "syncfail":
 		return nil, errors.New("probe: synchronization rejected on purpose")
+	case "synchang":
+		linger() // never answered: nri's request timeout
+	case "syncclose":
+		go theStub.Stop() // the connection goes away instead of an answer; the process stays
+		linger()
 	}
 	return nil, nil
 }
